@@ -11,6 +11,7 @@ take shows up as `rejected:…`.
 import Pandora.Drv.Util
 import Pandora.Model.C05Pool
 import Pandora.Model.C05Cli
+import Pandora.Model.C05Prov
 import Pandora.Spec.C05
 
 namespace Pandora.Drv.C05
@@ -249,6 +250,34 @@ def replayPool (p : PoolIn) (o : PoolObs) (allowExt preCancel : Bool) : M PoolPr
          errs := (s.compErrs.foldl (fun acc e => insertSorted e acc) []).eraseDups.map errName |> sortStr,
          done := finishedPool s }
 
+/-- `rp:` pools: what the provider model (`Model/C05Prov.lean`) says `Provider.Run` returns on the written source when it
+is read to its end: `some true` an error, `some false` nil -/
+def provModelFails (p : PoolIn) : Option Bool :=
+  match p.rp with
+  | none => none
+  | some (kind, k, tail) =>
+    let openOk := !(tail == "nofile" || tail == "slowopen")
+    let t : Prov.Tail := if tail == "tr" then .truncated else if tail == "bad" then .garbage
+      else if tail == "rderr" then .ioError else .clean
+    if kind == "json" then
+      (Prov.decodeRun { openOk := openOk } none (Prov.answers k t)).map (·.res.isErr)
+    else
+      -- grpc/json: the base provider's `Run`; what the concrete `start` returns on a broken line is an error
+      some (Prov.grpcRun openOk (if t == .clean then .nil else .decodeFailed k .parseErr) k).res.isErr
+
+/-- the provider's result in the await log against the provider model: a source the model reads to a regular end never
+gives an error; a broken source the run has to get to (more demand than complete ammo, no cancel, no other fault) always does -/
+def provModelBad (pl : Plan) (o : Obs) (i : Nat) (p : PoolIn) (po : PoolObs) : Option String :=
+  match provModelFails p, po.aw.find? (·.startsWith "P.") with
+  | some false, some tok => if tok == "P.ok" || tok == "P.ctx" then none else some s!"prov-model-nil-vs-{tok}-p{i}"
+  | some true, some tok =>
+    let (_, k, _) := p.rp.getD ("", 0, "")
+    if tok == "P.e.prov" then none
+    else if p.demand > k && !o.canc && pl.cancel == "none" && pl.pools.length == 1 && p.fails.isEmpty && p.blk == "" then
+      some s!"prov-model-err-vs-{tok}-p{i}"
+    else none
+  | _, _ => none
+
 def poolCls (res : String) : String :=
   match res.splitOn ":" with
   | ["err", _, c] => "e." ++ c
@@ -297,6 +326,13 @@ def handle : Handler := fun input impl =>
       match pl.pools[i]?, o.pools[i]? with
       | some p, some po => replayPool { p with closable := closableOf p po, warm := warmOf p po } po allowExt (pl.cancel.startsWith "pre")
       | _, _ => .error "missing-pool"
+    let provBad := ((List.range n).filterMap fun i =>
+      match pl.pools[i]?, o.pools[i]? with
+      | some p, some po => provModelBad pl o i p po
+      | _, _ => none).head?
+    match provBad with
+    | some e => (e, v)
+    | none =>
     match preds.mapM id with
     | .error e => (e, v)
     | .ok ps =>
